@@ -78,8 +78,38 @@ func VP_C19_WalkTree() {
 	tree, err := NewTree(g, &Object{Type: TreeObject, Size: len(data), Data: data})
 	if err == nil {
 		_ = tree.String()
+		zzvp.Assert(vpTreeFaithful(data, tree.Children), "a tree payload that is accepted is decoded faithfully: every entry's name and 20-byte id are the bytes of the payload")
 	}
 	zzvp.Done()
+}
+
+// vpTreeFaithful: reference decoding of a tree payload ("<mode> <name>" NUL <20-byte id>, repeated), written independently
+// of walkTree: the entries Goit returned must be the leading entries of the payload (names after the first blank, ids byte for byte).
+func vpTreeFaithful(data []byte, children []*Node) bool {
+	pos, k := 0, 0
+	for k < len(children) { // bytes after the last returned entry are not judged
+		j := pos
+		for j < len(data) && data[j] != 0 {
+			j++
+		}
+		if j >= len(data) || j+21 > len(data) {
+			return false // no NUL, or fewer than 20 id bytes: not a complete entry
+		}
+		head := string(data[pos:j])
+		sp := 0
+		for sp < len(head) && head[sp] != ' ' {
+			sp++
+		}
+		if sp >= len(head) {
+			return false
+		}
+		if children[k].Name != head[sp+1:] || string(children[k].Hash) != string(data[j+1:j+21]) {
+			return false
+		}
+		pos = j + 21
+		k++
+	}
+	return true
 }
 
 // VP_C19_NewCommit: any commit payload: value or error.
